@@ -212,7 +212,7 @@ def check_destination_reads(ctx, fn, rule='R-COPY.read-before-write', label=None
                 continue
         n += 1
         key = 'this->' + m.n
-        if not any(w.id < m.id and g.node_dominates(w, m) for w in writes.get(key, [])):
+        if not any(w.pos < m.pos and g.node_dominates(w, m) for w in writes.get(key, [])):
             bad.append(m)
     lab = label or fn.qn.replace('gdstk::', '')
     ctx.check(not bad, rule, lab + '/destination-fields', bad[0].loc() if bad else fn.loc(), 'every field of the destination that is read (%d reads) was assigned earlier on every path' % n,
